@@ -5,6 +5,7 @@
 -/
 import Minicbor.Token
 import Minicbor.Wire
+import Minicbor.Lemmas.TokenHalf
 
 namespace Minicbor.C11
 
@@ -63,11 +64,6 @@ theorem toksL_eq_flatMap (xs : List WItem) : toksL xs = xs.flatMap toks := by
   induction xs with
   | nil => rfl
   | cons x xs ih => simp [toksL, ih]
-
-/-- a signalling half NaN gets its quiet bit set by the `f16 → f32 → f16` trip the token makes
-    (`half::f16::to_f32` followed by `from_f32`); every other pattern is kept. -/
-def quiet16 (h : Nat) : Nat :=
-  if h / 1024 % 32 = 31 ∧ h % 1024 ≠ 0 ∧ h % 1024 < 512 then h + 512 else h
 
 def canonChunks : List (Width × Bytes) → List (Width × Bytes)
   | [] => []
